@@ -138,4 +138,12 @@ PROPS = {
         ] + [{"name": n, "kind": "fuzz", "fuzztime": 60, "tiers": ("thorough",)} for n in (
             "FuzzC20Strvals", "FuzzC20Values", "FuzzC20Index", "FuzzC20Manifests", "FuzzC20Ignore", "FuzzC20Plugin", "FuzzC20Records", "FuzzC20Schema", "FuzzC20ChartYaml")],
     },
+    "C15": {
+        "level": "exploration",
+        "tests": [
+            {"name": "TestC15A", "quick": 3000, "thorough": 60000, "shards_quick": 8},
+            {"name": "TestC15B", "quick": 4000, "thorough": 60000, "shards_quick": 5},
+            {"name": "TestC15C", "quick": 3000, "thorough": 30000, "shards_quick": 3},
+        ],
+    },
 }
